@@ -357,5 +357,18 @@ func TestC09(t *testing.T) {
 			}
 		}
 	}
+	// two DIFFERENT files with byte-identical content are two modules: each runs its top-level code and keeps its own
+	// globals (known finding C09-identical-content-files: the namespace of a file is a hash of its content only)
+	if e.Shard == 0 {
+		ident := "counter := 0\nprint(\"init\")\nfunc Next() int {\n\tcounter = counter + 1\n\treturn counter\n}\n"
+		c := execCase{Kind: "bash-run", Property: "C09", Main: "main.tsh", ExpectStdout: "init\ninit\n1 1\n", ExpectStatus: 0,
+			Files: map[string]string{"main.tsh": "import (\n\ta \"c.tsh\"\n\tb \"copy/c.tsh\"\n)\nprint(a.Next(), b.Next())\n", "c.tsh": ident, "copy/c.tsh": ident}}
+		r.Eval()
+		r.Class("identical-content-files")
+		r.NonTrivial("identical-content-files", nil)
+		if out := runExecCase(c); !out.OK {
+			r.Violate(rep.Sig{"kind": out.Kind, "shape": "identical-content-files"}, "two files with identical content: "+out.Msg, c)
+		}
+	}
 	_ = run.Bash
 }
